@@ -137,6 +137,18 @@ pub fn build_world<K: Kit>(spec: &Spec, w: &WorldSpec) -> World<K> {
     World::new(&w.name, obst, dist)
 }
 
+/// A metric ball of radius `r` whose centre lies on the shortest path from `target` toward `toward`,
+/// placed so that `target` sits `depth` inside its boundary ("marginally inside": the first state a
+/// motion check looks at on the way out is already free).
+pub fn marginal_ball<K: Kit>(spec: &Spec, target: &V, toward: &V, r: f64, depth: f64) -> ObstSpec {
+    let sp = K::build(spec);
+    let (t, q) = (K::from_v(target), K::from_v(toward));
+    let d = sp.distance(&t, &q);
+    let mut c = t.clone();
+    sp.interpolate(&t, &q, ((r - depth) / d).min(1.0), &mut c);
+    ObstSpec::Ball(K::to_v(&c), r)
+}
+
 /// One recorded API call.
 pub enum Call<K: Kit> {
     Solve(Result<Vec<K::S>, PlanningError>),
